@@ -31,6 +31,8 @@ EXCLUSIONS = [
     "LargestEmptyCircle) exclude tiny positive values (1e-300, 1e-9, denormal); NaN, +-Inf, 0, negative, 1e300 are generated",
     "an allocation refused by the sanitizer allocator (single request > 1.5 GB) is class `oom`, counted but not a violation: "
     "the non-instrumented library raises std::bad_alloc, which `execute` turns into the error value",
+    "GEOSMakeValidParams_setMethod_r takes an enum-TYPED parameter: only its two enumerators are passed (any other int is reported by "
+    "UBSan -fsanitize=enum at the callee's first read, before the callee can validate it)",
     "callbacks never throw and never re-enter GEOS except the distance callback (GEOSDistance_r)",
     "interruption (GEOS_interruptRequest), multi-threading and context creation/destruction inside a sequence are not exercised "
     "(C13/C14); every sequence uses one context created before and finished after it",
@@ -69,6 +71,8 @@ def signature(fn, reason):
     kind = re.sub(r"(illegal-for-model|result-ids-differ|result-aliases-live-object|const-or-unrelated-object-modified).*", r"\1", kind)
     if where == "harness":
         kind = "harness-internal:" + kind
+    if fn == "END" and kind == "leak":          # a leak has no entry point: the allocating GEOS function names the defect
+        kind = "leak:" + where
     return {"fn": fn, "kind": kind}
 
 
@@ -324,6 +328,16 @@ def run(ctx):
     ])
     quick = ctx.tier == "quick"
     ctx.cov["exclusions"] = EXCLUSIONS
+    # the committed corpus file is also a list of recorded findings: its `known` entries suppress like KNOWN_FINDINGS.json
+    # (the coordinator mirrors them there); its `fixed` entries suppress nothing
+    if os.path.exists(CORPUS):
+        try:
+            d = json.load(open(CORPUS))
+            d = d.get("findings", d) if isinstance(d, dict) else d
+            ctx.known += [k for k in d if k.get("property", "C12") == "C12" and k.get("status") == "known" and
+                          not any(k.get("signature") == o.get("signature") for o in ctx.known)]
+        except ValueError:
+            pass
     # test aid only: extra known findings from a file (same format as KNOWN_FINDINGS.json), e.g. to compare a mutated tree
     # against the unchanged one before the coordinator has recorded the baseline findings
     extra = os.environ.get("C12_EXTRA_KNOWN")
